@@ -112,96 +112,7 @@ func TestC03Hierarchy(t *testing.T) {
 	s := kit.Begin(t, "C03", "hierarchy",
 		"C16 assemblies (incl. DRAM bottoms, multiple requesters on one connection, optional page-table resource). Each case is executed R times in one process (R=3 quick, 6 thorough; timing.ResetIDGenerator before each build) and twice in fresh child processes through a real simulation.Simulation. Fingerprints: (a) every handled event in order with its JSON body incl. IDs, (b) every message sent on every port in order incl. IDs, (c) every entity's checkpoint payload + engine queue + ID counter at the end. In-process fingerprints must all be equal; the two child runs must have equal event traces and byte-identical final archives; the in-process event trace must equal the child trace (registration without tracer hooks). Go randomises map iteration per range statement, so order dependence shows between repeats. Non-trivial: >=50 events and (>=2 requesters or >=2 requests in flight)")
 	defer s.End()
-	run := func(f kit.Failer, c c03Case) {
-		reps := kit.Scale(3, 6)
-		var fps []fingerprint
-		ok, sig, msg := kit.Guard(func() {
-			for i := 0; i < reps; i++ {
-				fps = append(fps, runFingerprint(c))
-			}
-		})
-		if !ok {
-			s.Fail(f, c, sig, "%s", msg)
-			return
-		}
-		for i := 1; i < len(fps); i++ {
-			if fps[i].Events != fps[0].Events {
-				d := "lengths differ"
-				for k := 0; k < len(fps[0].firstEv) && k < len(fps[i].firstEv); k++ {
-					if fps[0].firstEv[k] != fps[i].firstEv[k] {
-						d = fmt.Sprintf("event %d: run 0 %q, run %d %q", k, fps[0].firstEv[k], i, fps[i].firstEv[k])
-						break
-					}
-				}
-				s.Fail(f, c, "nondeterministic:events", "two in-process runs of the same case handled different event sequences: %s", d)
-				return
-			}
-			if fps[i].Messages != fps[0].Messages {
-				s.Fail(f, c, "nondeterministic:messages", "two in-process runs sent different message sequences (events equal)")
-				return
-			}
-			if fps[i].Final != fps[0].Final {
-				d := ""
-				for k, v := range fps[0].finalMap {
-					if fps[i].finalMap[k] != v {
-						d = k
-					}
-				}
-				s.Fail(f, c, "nondeterministic:final-state", "two in-process runs ended in different final states (entity %s)", d)
-				return
-			}
-		}
-		// different processes
-		dir := workDir(t)
-		defer os.RemoveAll(dir)
-		var res [2]memsys.Result
-		for i := 0; i < 2; i++ {
-			r, err := memsys.RunChild(memsys.Job{Spec: c.Spec, NoTraceHooks: true, Dir: filepath.Join(dir, fmt.Sprint("p", i)), BuildID: "verif-c03",
-				SaveFinal: filepath.Join(dir, fmt.Sprint("final", i, ".tar.gz"))})
-			if err != nil {
-				s.Fail(f, c, "harness-child", "%v", err)
-				return
-			}
-			if r.Error != "" {
-				s.Fail(f, c, "child-run:"+firstWord(r.Error), "%s", r.Error)
-				return
-			}
-			res[i] = r
-		}
-		if sg, m := compareTraces(res[0].Events, res[1].Events); sg != "" {
-			s.Fail(f, c, "nondeterministic-across-processes:"+sg, "two fresh processes ran the same case differently: %s", m)
-			return
-		}
-		if res[0].FinalSHA != res[1].FinalSHA {
-			s.Fail(f, c, "nondeterministic-across-processes:final-state", "final archives of two fresh processes differ: %s",
-				diffArchives(filepath.Join(dir, "final0.tar.gz"), filepath.Join(dir, "final1.tar.gz")))
-			return
-		}
-		// in-process vs child event trace
-		if len(res[0].Events) != fps[0].NEvents {
-			s.Fail(f, c, "nondeterministic-across-processes:length", "in-process run handled %d events, child process %d", fps[0].NEvents, len(res[0].Events))
-			return
-		}
-		for k, e := range res[0].Events {
-			l := fmt.Sprintf("%d %s %s %v %s", e.Time, e.Handler, e.Type, e.Secondary, e.Body)
-			if l != fps[0].firstEv[k] {
-				s.Fail(f, c, "nondeterministic-across-processes:in-process-vs-child", "event %d: in-process %q, child %q", k, fps[0].firstEv[k], l)
-				return
-			}
-		}
-		maxOut := 0
-		for _, d := range c.Spec.Drivers {
-			if d.MaxOut > maxOut {
-				maxOut = d.MaxOut
-			}
-		}
-		classes := []string{"bottom:" + c.Spec.Bottom.Kind}
-		if len(c.Spec.Drivers) > 1 {
-			classes = append(classes, "multi-requester")
-		}
-		s.AddExtra("events_compared", fps[0].NEvents*(reps+2))
-		s.Note(c, fps[0].NEvents >= 50 && (len(c.Spec.Drivers) > 1 || maxOut > 1), classes...)
-	}
+	run := func(f kit.Failer, c c03Case) { runC03(s, f, t, c) }
 	var c c03Case
 	if ok, err := kit.LoadReplay("C03", "hierarchy", &c); ok {
 		if err != nil {
@@ -220,4 +131,152 @@ func TestC03Hierarchy(t *testing.T) {
 		}
 		run(rt, c03Case{Spec: spec})
 	})
+}
+
+const sigSideTableLeakWB = "same-process-second-simulation-differs:wb-evict-side-table-leak"
+
+func hasKind(spec memsys.AssemblySpec, k string) bool {
+	for _, l := range spec.Levels {
+		if l.Kind == k {
+			return true
+		}
+	}
+	return false
+}
+
+// TestC03Known re-runs the committed reproductions of listed C03 findings.
+func TestC03Known(t *testing.T) {
+	if kit.ReplayMode() {
+		t.Skip()
+	}
+	s := kit.Begin(t, "C03", "known", "committed reproductions of listed findings (known/C03/*.json)")
+	defer s.End()
+	for _, p := range kit.KnownReplays("C03") {
+		var c c03Case
+		r, err := kit.LoadReplayFile(p, &c)
+		if err != nil {
+			t.Fatal(err)
+		}
+		rec := &kit.KnownRecorder{}
+		probe := kit.BeginProbe(t, "C03", "known-probe")
+		runC03(probe, rec, t, c)
+		if rec.Failed {
+			s.KnownStillFails(t, c, r.Sig, firstLine(rec.Msg))
+		}
+	}
+}
+
+func runC03(s *kit.Session, f kit.Failer, t testing.TB, c c03Case) {
+	reps := kit.Scale(3, 6)
+	var fps []fingerprint
+	ok, sig, msg := kit.Guard(func() {
+		for i := 0; i < reps; i++ {
+			fps = append(fps, runFingerprint(c))
+		}
+	})
+	if !ok {
+		s.Fail(f, c, sig, "%s", msg)
+		return
+	}
+	for i := 1; i < len(fps); i++ {
+		if fps[i].Events != fps[0].Events {
+			d := "lengths differ"
+			for k := 0; k < len(fps[0].firstEv) && k < len(fps[i].firstEv); k++ {
+				if fps[0].firstEv[k] != fps[i].firstEv[k] {
+					d = fmt.Sprintf("event %d: run 0 %q, run %d %q", k, fps[0].firstEv[k], i, fps[i].firstEv[k])
+					break
+				}
+			}
+			s.Fail(f, c, "nondeterministic:events", "two in-process runs of the same case handled different event sequences: %s", d)
+			return
+		}
+		if fps[i].Messages != fps[0].Messages {
+			s.Fail(f, c, "nondeterministic:messages", "two in-process runs sent different message sequences (events equal)")
+			return
+		}
+		if fps[i].Final != fps[0].Final {
+			d := ""
+			for k, v := range fps[0].finalMap {
+				if fps[i].finalMap[k] != v {
+					d = k
+				}
+			}
+			s.Fail(f, c, "nondeterministic:final-state", "two in-process runs ended in different final states (entity %s)", d)
+			return
+		}
+	}
+	// different processes
+	dir := workDir(t)
+	defer os.RemoveAll(dir)
+	var res [2]memsys.Result
+	for i := 0; i < 2; i++ {
+		r, err := memsys.RunChild(memsys.Job{Spec: c.Spec, NoTraceHooks: true, Dir: filepath.Join(dir, fmt.Sprint("p", i)), BuildID: "verif-c03",
+			SaveFinal: filepath.Join(dir, fmt.Sprint("final", i, ".tar.gz"))})
+		if err != nil {
+			s.Fail(f, c, "harness-child", "%v", err)
+			return
+		}
+		if r.Error != "" {
+			s.Fail(f, c, "child-run:"+firstWord(r.Error), "%s", r.Error)
+			return
+		}
+		res[i] = r
+	}
+	if sg, m := compareTraces(res[0].Events, res[1].Events); sg != "" {
+		s.Fail(f, c, "nondeterministic-across-processes:"+sg, "two fresh processes ran the same case differently: %s", m)
+		return
+	}
+	if res[0].FinalSHA != res[1].FinalSHA {
+		s.Fail(f, c, "nondeterministic-across-processes:final-state", "final archives of two fresh processes differ: %s",
+			diffArchives(filepath.Join(dir, "final0.tar.gz"), filepath.Join(dir, "final1.tar.gz")))
+		return
+	}
+	// two traced (default registration: idle DBTracer hook on every
+	// component) simulations one after the other in ONE fresh process
+	rr, err := memsys.RunChild(memsys.Job{Spec: c.Spec, NoTraceHooks: false, Dir: filepath.Join(dir, "rep"), BuildID: "verif-c03", Repeat: 2})
+	if err != nil {
+		s.Fail(f, c, "harness-child", "%v", err)
+		return
+	}
+	if rr.Error != "" {
+		s.Fail(f, c, "child-run:"+firstWord(rr.Error), "%s", rr.Error)
+		return
+	}
+	if len(rr.Repeats) == 2 {
+		if sg, m := compareTraces(rr.Repeats[0], rr.Repeats[1]); sg != "" {
+			sig := "same-process-second-simulation-differs:" + sg
+			if len(c.Spec.Levels) > 0 && hasKind(c.Spec, "wb") {
+				// the write-back cache's late evict milestone re-creates a
+				// forgotten side-table entry (listed C32 finding), which then
+				// leaks into the next simulation of the process
+				sig = sigSideTableLeakWB
+			}
+			s.Fail(f, c, sig, "the second of two identical simulations run in one process (default Simulation registration, tracing never started) handled a different event sequence: %s", m)
+			return
+		}
+	}
+	// in-process vs child event trace
+	if len(res[0].Events) != fps[0].NEvents {
+		s.Fail(f, c, "nondeterministic-across-processes:length", "in-process run handled %d events, child process %d", fps[0].NEvents, len(res[0].Events))
+		return
+	}
+	for k, e := range res[0].Events {
+		l := fmt.Sprintf("%d %s %s %v %s", e.Time, e.Handler, e.Type, e.Secondary, e.Body)
+		if l != fps[0].firstEv[k] {
+			s.Fail(f, c, "nondeterministic-across-processes:in-process-vs-child", "event %d: in-process %q, child %q", k, fps[0].firstEv[k], l)
+			return
+		}
+	}
+	maxOut := 0
+	for _, d := range c.Spec.Drivers {
+		if d.MaxOut > maxOut {
+			maxOut = d.MaxOut
+		}
+	}
+	classes := []string{"bottom:" + c.Spec.Bottom.Kind}
+	if len(c.Spec.Drivers) > 1 {
+		classes = append(classes, "multi-requester")
+	}
+	s.AddExtra("events_compared", fps[0].NEvents*(reps+2))
+	s.Note(c, fps[0].NEvents >= 50 && (len(c.Spec.Drivers) > 1 || maxOut > 1), classes...)
 }
